@@ -33,6 +33,31 @@ class Outcome:
         return f"Outcome({self.brief()})"
 
 
+class Deadlock(Exception):
+    """The event loop went idle (nothing ready, nothing scheduled) while the awaited call had not finished."""
+
+
+async def _guarded(coro):
+    task = asyncio.ensure_future(coro)
+    loop = asyncio.get_running_loop()
+    while not task.done():
+        await asyncio.sleep(0)
+        if len(loop._ready) > 0 or loop._scheduled or task.done():
+            continue
+        task.cancel()
+        try:
+            await task
+        except BaseException:  # noqa: BLE001
+            pass
+        raise Deadlock("the event loop is idle (nothing runnable, no timer) but the call has not returned")
+    return await task
+
+
+def arun(coro):
+    """asyncio.run that turns a hang of the code under test into a Deadlock exception (decided at loop quiescence, not by a clock)."""
+    return asyncio.run(_guarded(coro))
+
+
 def _outcome(res):
     return Outcome(res.status.value, dict(res.values), res.error, res.pause, res)
 
@@ -57,7 +82,7 @@ def run_async(graph, values, runner=None, **kw) -> Outcome:
     try:
         with warnings.catch_warnings():
             warnings.simplefilter("ignore")
-            res = asyncio.run(go())
+            res = arun(go())
     except (Exception, asyncio.CancelledError) as e:  # noqa: BLE001 - a cancellation leaking out of run() is an outcome to judge
         return Outcome("raised", None, e)
     return _outcome(res)
